@@ -97,7 +97,7 @@ def _run_one(crate, qual, timeout):
 def run_harnesses(pats, tier):
     """pats: list of names / glob patterns.  Results cached per harness by the hash of all inputs."""
     work = vlib.workdir()
-    key_base = vlib.inputs_hash("kani")
+    key_base = vlib.inputs_hash("kani", kani_only=True)
     crate = None
     acc_index = None
     # harness names are needed before the crate is prepared only to consult the cache
